@@ -96,6 +96,16 @@ pub open spec fn mono(l0: Linter, l1: Linter) -> bool {
 	(l1.is_naked_branch is Some ==> l1.is_naked_branch == l0.is_naked_branch)
 	&& (l1.is_first_statement_of_branch is Some ==> l1.is_first_statement_of_branch == l0.is_first_statement_of_branch)
 }
+// exactly which statements consume which flag: an `if` and a non-empty block reset both, a `loop` consumes "first statement of branch"
+pub open spec fn consumes_nb(s: Statement) -> bool { s is If || (s is Block && s->Block_0.statements@.len() > 0) }
+pub open spec fn consumes_fs(s: Statement) -> bool { consumes_nb(s) || s is Loop }
+pub open spec fn flags_s(s: Statement, l0: Linter, l1: Linter) -> bool {
+	&&& l1.is_naked_branch == (if consumes_nb(s) { None } else { l0.is_naked_branch })
+	&&& l1.is_first_statement_of_branch == (if consumes_fs(s) { None } else { l0.is_first_statement_of_branch })
+}
+pub open spec fn flags_b(b: Block, l0: Linter, l1: Linter) -> bool {
+	if b.statements@.len() > 0 { idle(l1) } else { same_flags(l0, l1) }
+}
 pub open spec fn same_flags(l0: Linter, l1: Linter) -> bool {
 	l1.is_naked_branch == l0.is_naked_branch && l1.is_first_statement_of_branch == l0.is_first_statement_of_branch
 }
